@@ -82,8 +82,43 @@ def run(ids, on_repo):
     return res
 
 
+def cross(ids):
+    """Which OTHER properties' checks also see a seeded change: every check whose anchored
+    files include a file the change touches is run against it (scratch copy)."""
+    import fnmatch
+    props = [json.loads(l) for l in open(os.path.join(ROOT, "properties.jsonl"))]
+    out_path = os.path.join(ROOT, "seeded", "cross.json")
+    out = json.load(open(out_path)) if os.path.exists(out_path) else {}
+    for d in sorted(x for x in glob.glob(os.path.join(ROOT, "seeded", "C*")) if os.path.isdir(x)):
+        sid = os.path.basename(d)
+        if ids and sid not in ids:
+            continue
+        meta = json.load(open(os.path.join(d, "meta.json")))
+        files = [l.split(" b/")[1].strip() for l in open(os.path.join(d, "patch.diff")) if l.startswith("diff --git")]
+        related = [p["id"] for p in props if p["id"] != meta["property"] and any(
+            fnmatch.fnmatch(f, a.split(" ")[0]) for f in files for a in p["anchors"]["files"])]
+        scratch = tempfile.mkdtemp(prefix="vcross_", dir="/tmp")
+        try:
+            sh(["rsync", "-a", "--exclude", "__pycache__", "/repo/sktime", scratch + "/"])
+            assert sh(["patch", "-p1", "-d", scratch, "-i", os.path.join(d, "patch.diff")]).returncode == 0
+            env = dict(os.environ, VERIF_SENS="1", VERIF_SHRINK_S="4", VERIF_REPO=scratch)
+            row = {}
+            for pid in related:
+                p = sh([os.path.join(ROOT, "check"), pid, "--tier", "quick"], env=env)
+                viol = [l.strip() for l in p.stdout.splitlines() if l.startswith("  violation")]
+                row[pid] = {0: "quiet", 1: "caught", 2: "harness-error"}.get(p.returncode, "?") + ((": " + viol[0][13:150]) if viol else "")
+            out[sid] = row
+            print(sid, row)
+            sys.stdout.flush()
+            json.dump(out, open(out_path, "w"), indent=1, sort_keys=True)
+        finally:
+            shutil.rmtree(scratch, ignore_errors=True)
+
+
 if __name__ == "__main__":
-    if sys.argv[1] == "confirm":
+    if sys.argv[1] == "cross":
+        cross([a for a in sys.argv[2:]])
+    elif sys.argv[1] == "confirm":
         sys.exit(confirm(sys.argv[2], sys.argv[3]))
     elif sys.argv[1] == "run":
         ids = [a for a in sys.argv[2:] if not a.startswith("--")]
